@@ -504,4 +504,7 @@ func main() {
 
 	// T3 (C19): mutation facts (mutfacts.go)
 	emitMutFacts(repo, out)
+
+	// T1/T2/T3 (C17): constants, JC69 cell and variant facts of distance/protein (protdist.go)
+	emitProtDist(repo, out, en)
 }
